@@ -39,7 +39,7 @@ func c16rWaitLeader(s *Server, name string) *partition {
 }
 
 func TestVerifC16Restore(t *testing.T) {
-	res := vNewResult("C16", "[across a snapshot and across pause/resume] running single-node server: streams with and without concurrency control holding 0..3 messages; FSM snapshot taken (Snapshot+Persist) and installed on the running server (Restore+finishedRecovery), twice; then every stream paused and resumed by a publish; after each event "+
+	res := vNewResult("C16", "[across a snapshot, across pause/resume and across delete + re-create + restart] running single-node server: streams with and without concurrency control holding 0..3 messages; FSM snapshot taken (Snapshot+Persist) and installed on the running server (Restore+finishedRecovery), twice; then every stream paused and resumed by a publish; then every stream deleted and created again with the other concurrency-control setting and the server restarted (Raft log replay); after each event "+
 		"conditional publishes with expected offset waived / 0 / stale / next / future / next again (one at a time, ack policy LEADER and ALL); oracle from C16: on a stream CREATED with concurrency control stored iff expected = next offset or waived, at exactly that offset, otherwise refused with the incorrect-offset error and the log unchanged; "+
 		"non-trivial = concurrency-control stream and an expected offset that is not the next one; distinct by (occ, length, expected, policy, event)")
 	defer res.Write(t)
@@ -114,8 +114,40 @@ func TestVerifC16Restore(t *testing.T) {
 	// rounds 0, 1: a snapshot is installed (the second one is the snapshot of a server that was itself restored
 	// from one); round 2: every stream is paused and then resumed by the first publish that reaches it (the
 	// partition object is rebuilt from the stream's configuration on resume)
-	for round := 0; round < 3; round++ {
-		if round < 2 {
+	// round 3: every stream is deleted and created again under its name with the OTHER concurrency-control setting, then
+	// the server is stopped and started again: it rebuilds its streams by replaying the Raft log, in which the deletion
+	// only tombstones the stream and the second create entry un-tombstones it - with the configuration of THAT entry
+	recreate := func() string {
+		for _, st := range streams {
+			ctx, cancel := context.WithTimeout(context.Background(), 10*time.Second)
+			_, err := s.api.DeleteStream(ctx, &client.DeleteStreamRequest{Name: st.name})
+			cancel()
+			if err != nil {
+				return "delete " + st.name + ": " + err.Error()
+			}
+			st.occ, st.n = !st.occ, 0
+			req := &client.CreateStreamRequest{Subject: st.name, Name: st.name, ReplicationFactor: 1, Partitions: 1}
+			if st.occ {
+				req.OptimisticConcurrencyControl = &client.NullableBool{Value: true}
+			}
+			ctx, cancel = context.WithTimeout(context.Background(), 10*time.Second)
+			_, err = s.api.CreateStream(ctx, req)
+			cancel()
+			if err != nil {
+				return "re-create " + st.name + ": " + err.Error()
+			}
+		}
+		s.Stop()
+		s = vStartSingleNode(t, "c16r", c16rPort, nil)
+		return ""
+	}
+	for round := 0; round < 4; round++ {
+		if round == 3 {
+			if e := recreate(); e != "" {
+				res.Fail(vFailure{Kind: "spec", Case: []string{"c16r recreate-restart"}, Detail: "deleting / re-creating the streams failed: " + e, Tag: "recreate-failed"})
+				return
+			}
+		} else if round < 2 {
 			if e := install(); e != "" {
 				res.Fail(vFailure{Kind: "spec", Case: []string{fmt.Sprintf("c16r install %d", round)}, Detail: "installing the server's own snapshot failed: " + e, Tag: "snapshot-install-failed"})
 				return
@@ -164,7 +196,7 @@ func TestVerifC16Restore(t *testing.T) {
 						res.Fail(vFailure{Kind: "spec", Case: []string{"c16r " + st.name}, Detail: fmt.Sprintf("log holds %d messages, %d were stored", next, st.n), Tag: "log-length-after-install"})
 						st.n = next
 					}
-					line := fmt.Sprintf("c16r occ=%v len=%d expected=%d policy=%v event=%s", st.occ, st.n, exp, pol, []string{"install", "install-again", "pause-resume"}[round])
+					line := fmt.Sprintf("c16r occ=%v len=%d expected=%d policy=%v event=%s", st.occ, st.n, exp, pol, []string{"install", "install-again", "pause-resume", "recreate-restart"}[round])
 					ctx, cancel := context.WithTimeout(context.Background(), 5*time.Second)
 					resp, err := s.api.Publish(ctx, &client.PublishRequest{Stream: st.name, Value: []byte(line), AckPolicy: pol, ExpectedOffset: exp})
 					cancel()
